@@ -13,8 +13,15 @@ Lemma sc_name_eqb_eq a b : name_eqb a b = true <-> a = b.
 Proof. unfold name_eqb. apply String.eqb_eq. Qed.
 Lemma sc_oname_eqb_eq a b : oname_eqb a b = true <-> a = b.
 Proof. destruct a, b; cbn [oname_eqb]; rewrite ?sc_name_eqb_eq; split; congruence. Qed.
+Lemma sc_opkey_eqb_eq a b : opkey_eqb a b = true <-> a = b.
+Proof.
+  destruct a as [i x], b as [j y]. unfold opkey_eqb. cbn [fst snd].
+  rewrite andb_true_iff, Nat.eqb_eq, sc_oname_eqb_eq. split; [intros [-> ->]; reflexivity|intro H; inversion H; auto].
+Qed.
 Lemma sc_scope_eqb_eq a b : scope_eqb a b = true <-> a = b.
-Proof. destruct a, b; cbn [scope_eqb]; rewrite ?sc_oname_eqb_eq, ?sc_name_eqb_eq; split; congruence. Qed.
+Proof.
+  destruct a as [i x|x], b as [j y|y]; cbn [scope_eqb]; rewrite ?sc_opkey_eqb_eq, ?sc_name_eqb_eq; split; congruence.
+Qed.
 
 Lemma scope_eq_dec (a b : scope) : {a = b} + {a <> b}.
 Proof.
@@ -323,7 +330,7 @@ Proof.
 Qed.
 
 Lemma spreads_permuted_reordered st spreads' : spreads_permuted (vp_spreads st) spreads' ->
-  spreads_reordered st (mkViap spreads' (vp_usages st) (vp_defs st) (vp_scope st) (vp_directive st)
+  spreads_reordered st (mkViap spreads' (vp_usages st) (vp_defs st) (vp_scope st) (vp_seen st) (vp_directive st)
                                (vp_objects st) (vp_defaults st)).
 Proof.
   intro H. split; [reflexivity|split; [reflexivity|]]. intros x n. unfold sget. cbn [vp_spreads].
@@ -334,7 +341,7 @@ Qed.
 
 Theorem viap_finish_spreads_perm : forall s d st spreads',
   spreads_permuted (vp_spreads st) spreads' ->
-  let st' := mkViap spreads' (vp_usages st) (vp_defs st) (vp_scope st) (vp_directive st)
+  let st' := mkViap spreads' (vp_usages st) (vp_defs st) (vp_scope st) (vp_seen st) (vp_directive st)
                     (vp_objects st) (vp_defaults st) in
   r_oof (viap_finish s d st) = false -> r_oof (viap_finish s d st') = false ->
   Permutation (r_errors (viap_finish s d st)) (r_errors (viap_finish s d st')).
@@ -445,7 +452,7 @@ Proof. intro H. induction H as [|a b m m' _ _ IH]; [reflexivity|]. cbn [List.len
 Theorem viap_finish_spreads_perm_fuel : forall s d st spreads',
   spreads_permuted (vp_spreads st) spreads' ->
   List.length (vp_spreads st) < vars_fuel d ->
-  let st' := mkViap spreads' (vp_usages st) (vp_defs st) (vp_scope st) (vp_directive st)
+  let st' := mkViap spreads' (vp_usages st) (vp_defs st) (vp_scope st) (vp_seen st) (vp_directive st)
                     (vp_objects st) (vp_defaults st) in
   r_oof (viap_finish s d st) = false /\ r_oof (viap_finish s d st') = false /\
   Permutation (r_errors (viap_finish s d st)) (r_errors (viap_finish s d st')).
